@@ -364,7 +364,9 @@ func dccAll(c *vf.Ctx) {
 	for r := 1; r <= c.Pick(48, 256); r++ {
 		rounds = append(rounds, r)
 	}
-	rounds = append(rounds, 1000, 10240)
+	// both sides of the Windows default (10240) and of its multiples of 1024; counts a registry-style encoding
+	// (units of 1024) would change; a large count
+	rounds = append(rounds, 1000, 1023, 1024, 1025, 10239, 10240, 10241, 11264, 12000, 20000, 65535, 65536, 100000)
 	type c2 struct {
 		p, u string
 		r    int
